@@ -22,13 +22,18 @@ PROPS = {
         not_decided=["the string matching that recognises the directive text inside a comment (comment.lines().map(trim) — str iterators): assumed as has_ignore()/toggled()",
                      "format_multiline_table's loop (it toggles the ignore state per field and calls format_field): not under contract; format_field itself is (unit table)"],
         assumptions=["Block::stmts_with_semicolon / with_stmts / Peekable::next/peek behave as sequences (class A/B)"]),
-    "C09": dict(units=["ctx", "block", "lib", "sort"], bounded=[dict(kind="lib", witnesses="RANGE_SORT_WITNESSES"), dict(kind="lib", witnesses="RANGE_BLANK_WITNESSES"), dict(kind="range", kinds=["before", "blank-lines", "after", "panic", "error", "timeout"]), dict(kind="ignore", kinds=["ignored-changed"], case_contains="+range@")],
+    "C09": dict(units=["ctx", "block", "lib", "sort", "range"], bounded=[dict(kind="lib", witnesses="RANGE_SORT_WITNESSES"), dict(kind="lib", witnesses="RANGE_BLANK_WITNESSES"), dict(kind="range", kinds=["before", "blank-lines", "after", "panic", "error", "timeout"]), dict(kind="ignore", kinds=["ignored-changed"], case_contains="+range@")],
         explanation="should_format_node (real text) returns NotInRange iff start < range.start or end > range.end for all positions and bounds. "
                     "format_stmt / format_last_stmt: NotInRange => only nested blocks may change (stmt_block::*, assumed). format_block: an out-of-range "
-                    "statement keeps its semicolon token and trailing trivia (pair pushed as returned), in the same position.",
-        not_decided=["in-range statements come out as in whole-file formatting (relates two runs)", "stmt_block::format_stmt_block touches only nested blocks (assumed, class C)"],
+                    "statement keeps its semicolon token and trailing trivia (pair pushed as returned), in the same position. "
+                    "stmt_block::format_stmt_block / format_expression_block (unit range, real text): the result is the same kind of node built from the input by replacing its block(s) — the blocks inside its "
+                    "expressions, for assignments and calls — with every other part (tokens, names, conditions, operators) handed through: per node, the untracked remainder `<node>_rest` is equal.",
+        not_decided=["in-range statements come out as in whole-file formatting (relates two runs)",
+                     "the closures of stmt_block that map over lists (expression lists, table fields, call suffixes, elseif branches) are wrappers with the recursive contract assumed; "
+                     "that a nested block is visited at all (so that in-range statements inside an out-of-range statement are formatted) is not stated: a block may differ in any way under this contract",
+                     "the block unit's stub of format_stmt_block (`blocks_only`, uninterpreted there) is not connected to the structural definition of the unit range"],
         assumptions=[]),
-    "C03": dict(units=["tok", "args", "stmt", "table", "expr", "collapse"], bounded=[dict(kind="lib", witnesses="C03_BOUNDED"), dict(kind="corpus", kinds=["comments"]), dict(kind="inject", kinds=["comments"])],
+    "C03": dict(units=["tok", "args", "stmt", "table", "expr", "collapse"], bounded=[dict(kind="lib", witnesses="C03_BOUNDED"), dict(kind="corpus", kinds=["comments"]), dict(kind="inject", kinds=["comments"]), dict(kind="range", kinds=["comments"])],
         explanation="token/trivia layer, all real text: format_token keeps a comment's kind, long-bracket level and text (line comments right-trimmed, block comments newline-normalised) and "
                     "creates only whitespace; load_token_trivia (real loop over a Peekable with an inner next(), inductive invariant): the comments of the input trivia come out in order, each only "
                     "rewritten as format_token allows, input whitespace is never copied, and in leading trivia every line comment is followed by a newline; format_token_reference / format_symbol / "
@@ -107,7 +112,7 @@ PROPS = {
                      "byte-identical output across carriers is implied only through `same Config`; equality of the library's output for equal Configs is determinism of format_code, not proved"],
         assumptions=["ec4rs Properties::get::<T>() returns the parsed value of key T (wrappers); the string parsers generated by property_choice! are macro output (assumed)"],
         technique="Kani complete enumeration of finite enum domains + Verus contracts on mechanically extracted real functions"),
-    "C07": dict(bounded=[dict(kind="lib", witnesses="C07_BOUNDED"), dict(kind="corpus", kinds=["panic", "error", "timeout"]), dict(kind="inject", kinds=["panic", "error"])], units=["expr", "block", "ctx", "lib", "tok", "cli_io", "diff", "config", "econf", "sort", "args", "table", "stmt", "luau", "collapse", "bodies"], kani=["shape"],
+    "C07": dict(bounded=[dict(kind="lib", witnesses="C07_BOUNDED"), dict(kind="corpus", kinds=["panic", "error", "timeout"]), dict(kind="inject", kinds=["panic", "error"])], units=["expr", "block", "ctx", "lib", "tok", "cli_io", "diff", "config", "econf", "sort", "args", "table", "stmt", "luau", "collapse", "bodies", "range"], kani=["shape"],
         explanation="Totality of the library call, decided per function under contract: inside every function whose real text is verified, each panic!/unreachable!/assert!/expect/unwrap, "
                     "each usize subtraction/addition/multiplication and every recursion or loop (decreases) is an obligation Verus discharges for all inputs (one `.total` obligation per function and "
                     "feature set). format_code returns Err(ParseError) iff the input does not parse and never Ok otherwise; format_ast without verification always returns Ok. "
@@ -126,7 +131,7 @@ PROPS = {
                      "slice::sort_by_key is assumed to be a stable sort by the name (class B wrapper); the leading-trivia swap (comments of the group's first line stay on top) is a hole: comment preservation inside a sorted group is only exercised by the bounded witnesses",
                      "get_expression_kind (what counts as a require / GetService call): string matching, assumed"],
         assumptions=["parsed ASTs carry positions; local names are identifier tokens (parser)"]),
-    "C02": dict(units=["expr", "block", "lib", "tok", "args", "table", "stmt", "luau", "collapse", "bodies"], bounded=[dict(kind="lib", witnesses="C02_BOUNDED"), dict(kind="corpus", kinds=["tree", "literals"]), dict(kind="inject", kinds=["tree", "literals"])],
+    "C02": dict(units=["expr", "block", "lib", "tok", "args", "table", "stmt", "luau", "collapse", "bodies", "range"], bounded=[dict(kind="lib", witnesses="C02_BOUNDED"), dict(kind="corpus", kinds=["tree", "literals"]), dict(kind="inject", kinds=["tree", "literals"]), dict(kind="range", kinds=["tree"])],
         explanation="expression spine: same obligations as C05 (operator tree, leaves, operators) plus line safety (code printed behind a line comment silently disappears: D25, D32, D33); "
                     "statements of a block are the input's, in order (format_block invariant); token layer: names/symbols/numbers/strings per fmt_tt; call sugar keeps the single argument (args_sem); "
                     "table fields keep kind, key and value trees (format_field, format_field_expression_value); a condition loses at most its top-level parentheses; "
@@ -143,7 +148,7 @@ PROPS = {
                      "Luau types: the arms of format_type_info_internal that build arrays, callbacks, generics, tables, typeof and module types are behind one wrapper without contract (the types nested in them are formatted by calls the unit does not follow); "
                      "the list formatter of the types inside parentheses takes a closure that recurses: its result is assumed to have as many types as its input"],
         assumptions=["leaf formatters return the same leaf (var_id, call_id, table_id, ... postconditions on stubs)"]),
-    "C01": dict(units=["expr", "block", "lib", "tok", "table", "collapse"], bounded=[dict(kind="lib", witnesses="C01_BOUNDED"), dict(kind="corpus", kinds=["parse"]), dict(kind="inject", kinds=["parse"])],
+    "C01": dict(units=["expr", "block", "lib", "tok", "table", "collapse"], bounded=[dict(kind="lib", witnesses="C01_BOUNDED"), dict(kind="corpus", kinds=["parse"]), dict(kind="inject", kinds=["parse"]), dict(kind="range", kinds=["parse"])],
         explanation="(unit collapse: a function body / if guard is only written on one line — with `end` behind its statement — when no comment is found in it.) necessary conditions, each a mechanism the property names: (1) `- -x` guard on both layout paths, right-open expressions never freed under an operator (C05 contract); "
                     "(2) a long-bracket string is separated from `[` (format_index, format_field, is_brackets_string); (3) the statement separator is kept where the next statement starts with `(` "
                     "(format_block); (4) LINE SAFETY inside expressions (prelude/lines.rs): esafe(r) is a postcondition of format_expression, format_expression_internal, hang_binop_expression, "
@@ -303,6 +308,9 @@ LOOP_SRC = ('while (a and b) or (c) do x = x + 1 f(x) end\nrepeat local y = g() 
             'for k, v in pairs(t), (nil) do print(k, v) end\ndo local z = 1 z = z + 1 return z end\n'
             'if (a) then p() q() elseif ((b)) and c then r() elseif (f()) then s() s() else u() return end\n')
 LOOP_WITNESSES = [w(LOOP_SRC, oracle="tree", sweep=(10, 120)), w(LOOP_SRC, oracle="tree", collapse_simple_statement="Always", indent_type="Spaces", sweep=(10, 120))]
+COLLAPSE_LUAU_SRC = ('local function f() count += 1 end\nlocal g = function() total -= step end\nif ready then n *= 2 end\ncall(function() x ..= "s" end)\nlocal t = { h = function() y //= 2 end }\n'
+                     'local function k(): number return 1 end\nif a then local z: number = 1 end\n')
+COLLAPSE_LUAU_WITNESSES = [w(COLLAPSE_LUAU_SRC, oracle="tree", syntax="luau", collapse_simple_statement=c, sweep=(20, 120)) for c in ("Always", "FunctionOnly", "ConditionalOnly")]
 COND_COMMENT_WITNESSES = [w('while ( --[[a]] x --[[b]] ) --[[c]] do end\nif --[[d]] (y) then end\nrepeat until ( --[[e]] z )\nwhile ( -- f\n w) do end\nif (a) then end\n', oracle="comments", sweep=(20, 120))]
 SEMI_COMMENT_WITNESSES = [w('local a = b; -- c\n(f or g)()\nlocal d = e; --[[ blk ]]\n(h)()\nx = 1; -- gone\nreturn x; -- last\n', oracle="comments")]
 a26, b30, c26 = "a" * 26, "b" * 30, "c" * 26
@@ -320,6 +328,9 @@ CALL_COMMENT_WITNESSES = [w('a -- c\n (b)\na.b -- d\n (b)\nfoo(a -- e\n (b))\na 
 PARAM_COMMENT_WITNESSES = [w('local x = function( -- c\n a) end\nfunction f( -- d\n ) end\nfunction g( -- e\n a, -- f\n ...) return 1 end\n', oracle="comments", sweep=(10, 120))]
 # open finding D28 (known_findings.txt): one witness per finding
 UNOP_COMMENT_WITNESSES = [w('foo(- -- c\n a)\nfoo(not -- d\n a, b)\nlocal x = # -- e\n a\nlocal y = - -- f\n -a\nif not -- g\n a then end\n', oracle="comments", sweep=(10, 120))]
+# D39 (repaired): call parentheses removed around an argument that ends with a line comment; D40 / D41 (repaired): Luau array access modifier, default of a generic type pack
+D39_WITNESSES = [w('g(f("x" -- c\n))\nlocal y = f("x" -- c\n) + 1\nf({ 1 } -- d\n):g()\nlocal t = { a = f("x" -- e\n), b = 1 }\n', oracle=o, call_parentheses=c, sweep=(10, 120)) for o in ("tree", "comments") for c in ("None", "NoSingleString", "NoSingleTable")]
+LUAU_TYPE_FIX_WITNESSES = [w('type A = { read number }\ntype C = { write -- c\n number }\ntype F<T... = (string)> = (T...) -> ()\ntype G<T... = (string, number), U... = ...number> = (T..., U...) -> ()\n', oracle=o, syntax="luau", sweep=(10, 120)) for o in ("tree", "comments")]
 ARG_PAREN_COMMENT_WITNESSES = [w('foo((a -- c\n))\nfoo(a, (b -- d\n))\nfoo(a + (b -- e\n), d)\nfoo(-(a -- f\n))\na:b -- g\n (d)\nlocal x = a:b -- h\n (d):e()\n', oracle="comments", sweep=(10, 120))]
 OPEN_COMMENT_FINDINGS = []
 # line comments inside kept parentheses (D31), in front of a type assertion (D32), uncovered inside a nested operand chain (D33)
@@ -347,7 +358,7 @@ WITNESSES = {
     "C02.empty_block": COLLAPSE_WITNESSES, "C03.if_guard": COLLAPSE_WITNESSES, "C03.collapsed_function": COLLAPSE_WITNESSES, "C01.semicolon": COLLAPSE_WITNESSES[:2] + SEMI_COMMENT_WITNESSES, "C08.block": SEMI_COMMENT_WITNESSES,
     "C02.": TYPE_WITNESSES, "C03.": TABLE_COMMENT_WITNESSES, "C03.field_value": FIELD_COMMENT_WITNESSES, "C02.field_value": FIELD_COMMENT_WITNESSES,
     "C01.line_comment": C04_WITNESSES + C10_WITNESSES[:4], "C04.": C04_WITNESSES, "C03.token_text": C04_WITNESSES + C10_WITNESSES, "C11.quote_choice": C04_WITNESSES[:4], "C10.": C10_WITNESSES,
-    "C11.": C11_WITNESSES, "C02.call_sugar": C11_WITNESSES[:5], "C03.args_conversion": [w('f( --[[c]] "x")\ng("y" --[[d]])\nh("z") -- e\nk( -- l\n{})\n', oracle="comments", call_parentheses="None")],
+    "C11.": C11_WITNESSES + D39_WITNESSES[:3], "C02.call_sugar": C11_WITNESSES[:5], "C03.args_conversion": [w('f( --[[c]] "x")\ng("y" --[[d]])\nh("z") -- e\nk( -- l\n{})\n', oracle="comments", call_parentheses="None")],
     "C01.is_brackets_string": BRACKET_WITNESSES, "C01.index_bracket_string": BRACKET_WITNESSES, "C01.bracket_string": BRACKET_WITNESSES,
     "C12.": SORT_WITNESSES + SORT_COMMENT_WITNESSES,
     "C15.": [cli("config_search")], "C20.": [cli("option_carriers")],
@@ -362,9 +373,9 @@ WITNESSES = {
     "C01.double_minus_guard": EXPR_WITNESSES[1:3],
 }
 
-C01_BOUNDED = [x for x in COLLAPSE_WITNESSES if x["oracle"] == "comments"] + BRACKET_WITNESSES + REHANG_WITNESSES[1:] + BINOP_COMMENT_WITNESSES + CALL_COMMENT_WITNESSES[:1] + PARAM_COMMENT_WITNESSES + UNOP_COMMENT_WITNESSES + ARG_PAREN_COMMENT_WITNESSES + [LINE_SAFE_WITNESSES[i] for i in (0, 2, 4)] + LOCAL_COMMENT_WITNESSES + OPEN_COMMENT_FINDINGS + D30_FINDINGS
-C02_BOUNDED = TYPE_WITNESSES + [x for x in COLLAPSE_WITNESSES if x["oracle"] == "tree"] + CALL_COMMENT_WITNESSES[1:] + [LINE_SAFE_WITNESSES[i] for i in (1, 3)] + ATTR_COMMENT_WITNESSES + D30_TREE_FINDINGS
-C03_BOUNDED = (TABLE_COMMENT_WITNESSES + COND_COMMENT_WITNESSES + SEMI_COMMENT_WITNESSES + [x for x in COLLAPSE_WITNESSES if x["oracle"] == "comments"][:2]
+C01_BOUNDED = D39_WITNESSES[:3] + LUAU_TYPE_FIX_WITNESSES[:1] + [x for x in COLLAPSE_WITNESSES if x["oracle"] == "comments"] + BRACKET_WITNESSES + REHANG_WITNESSES[1:] + BINOP_COMMENT_WITNESSES + CALL_COMMENT_WITNESSES[:1] + PARAM_COMMENT_WITNESSES + UNOP_COMMENT_WITNESSES + ARG_PAREN_COMMENT_WITNESSES + [LINE_SAFE_WITNESSES[i] for i in (0, 2, 4)] + LOCAL_COMMENT_WITNESSES + OPEN_COMMENT_FINDINGS + D30_FINDINGS
+C02_BOUNDED = COLLAPSE_LUAU_WITNESSES[:1] + TYPE_WITNESSES + LUAU_TYPE_FIX_WITNESSES[:1] + [x for x in COLLAPSE_WITNESSES if x["oracle"] == "tree"] + CALL_COMMENT_WITNESSES[1:] + [LINE_SAFE_WITNESSES[i] for i in (1, 3)] + ATTR_COMMENT_WITNESSES + D30_TREE_FINDINGS
+C03_BOUNDED = (D39_WITNESSES[3:] + LUAU_TYPE_FIX_WITNESSES[1:] + TABLE_COMMENT_WITNESSES + COND_COMMENT_WITNESSES + SEMI_COMMENT_WITNESSES + [x for x in COLLAPSE_WITNESSES if x["oracle"] == "comments"][:2]
                + PAREN_COMMENT_WITNESSES + REHANG_WITNESSES[:1] + SORT_COMMENT_WITNESSES + FIELD_COMMENT_WITNESSES + OPEN_C03_FINDINGS)
 def nest(n, open_, close): return "local v = " + "".join(open_ for _ in range(n)) + "1" + "".join(close for _ in range(n)) + "\n"
 TIME_WITNESSES = [dict(w(nest(24, "f({ ", " })"), oracle="parse"), time_limit=20), dict(w(nest(22, "f(", ")"), oracle="parse"), time_limit=20),
@@ -373,7 +384,7 @@ def chain(n): return "local x = " + "".join("a:b(" for _ in range(n)) + "a" + ""
 # D37 (open, known finding): every level of a method chain nested in the arguments of a method chain is formatted several times over
 # (trial formats of format_function_call and of the argument heuristics): 150 bytes take minutes
 D37_FINDING = [dict(w(chain(16), oracle="parse"), time_limit=10)]
-C07_BOUNDED = [x for x in COLLAPSE_WITNESSES if x["oracle"] == "tree"] + TIME_WITNESSES + [dict(w(chain(7), oracle="parse"), time_limit=20)] + D37_FINDING    # the replay tool reports a formatter panic as a violation
+C07_BOUNDED = [x for x in COLLAPSE_WITNESSES if x["oracle"] == "tree"] + COLLAPSE_LUAU_WITNESSES + TIME_WITNESSES + [dict(w(chain(7), oracle="parse"), time_limit=20)] + D37_FINDING    # the replay tool reports a formatter panic as a violation
 
 # corpus sweep (bounded stand-in): /repo/tests/inputs*/ under configurations and widths the snapshot tests do not use
 CORPUS_CONFIGS_QUICK = [dict(), dict(collapse_simple_statement="Always", call_parentheses="None"),
